@@ -305,7 +305,10 @@ def _init_worker():
     except (ValueError, OSError):
         pass
     import logging
-    logging.getLogger('qecsim').setLevel(logging.CRITICAL)
+    lg = logging.getLogger('qecsim')
+    lg.setLevel(logging.CRITICAL)
+    lg.addHandler(logging.NullHandler())
+    lg.propagate = False
     signal.signal(signal.SIGALRM, _alarm)
     np.seterr(all='ignore')
 
@@ -376,12 +379,38 @@ def run_decode_job(job):
     return {'id': job['id'], 'results': res}
 
 
+def job_loglevel(i):
+    """logging configuration is part of the run configuration: every fourth pool job runs with the qecsim loggers at
+    DEBUG (every guarded debug statement executes), the others with logging off.  VERIF_LOGLEVEL=DEBUG|CRITICAL forces
+    one level (used to replay a case found at DEBUG)."""
+    import logging
+    forced = os.environ.get('VERIF_LOGLEVEL')
+    if forced:
+        return getattr(logging, forced)
+    return logging.DEBUG if i % 4 == 3 else logging.CRITICAL
+
+
+class _Leveled:
+    def __init__(self, fn):
+        self.fn = fn
+
+    def __call__(self, ij):
+        import logging
+        i, job = ij
+        lg = logging.getLogger('qecsim')
+        lg.setLevel(job_loglevel(i))
+        try:
+            return self.fn(job)
+        finally:
+            lg.setLevel(logging.CRITICAL)
+
+
 def run_pool(fn, jobs, procs=None):
-    """run jobs in worker processes (fork), results in job order"""
+    """run jobs in worker processes (fork), results in job order; job i runs at logging level job_loglevel(i)"""
     procs = procs or min(16, os.cpu_count() or 4)
     ctx = multiprocessing.get_context('fork')
     with ctx.Pool(procs, initializer=_init_worker) as pool:
-        out = pool.map(fn, jobs, chunksize=1)
+        out = pool.map(_Leveled(fn), list(enumerate(jobs)), chunksize=1)
     return out
 
 
